@@ -313,9 +313,52 @@ def family_b2():
     return out
 
 
+def storms(big=True):
+    """the large instances of family I, run on the implementation only (their expected multiset comes from one model run)"""
+    out = []
+    for n, k in (((48, 25),) if big else ((6, 4),)):
+        lines = ["prc[p%d] : 1 = %sclose self" % (i, "print tick; " * k) for i in range(n)]
+        lines.append("prc[m] : 1 = " + "".join("wait p%d; " % i for i in range(n)) + "print done; close self")
+        out.append(("storm:print:%d:%d" % (n, k), "\n".join(lines) + "\n"))
+    for n, k in (((8, 120),) if big else ((4, 5),)):
+        nat = "type nat = +{z : 1, s : nat}\nlet zero() : nat = t : 1 <- new close self; self.z<t>\nlet succ(x : nat) : nat = self.s<x>\n"
+        da = "let drainA(x : nat) : 1 = case x (z<t> => wait t; close self | s<y> => print a; drainA(y))\n"
+        db = "let drainB(x : nat) : 1 = case x (z<t> => wait t; close self | s<y> => print b; drainB(y))\n"
+        lines = []
+        for i in range(n):
+            build = "n0 <- new zero(); " + "".join("n%d <- new succ(n%d); " % (j + 1, j) for j in range(k))
+            lines.append("prc[q%d] : 1 = %sr <- new drain%s(n%d); wait r; close self" % (i, build, "A" if i % 2 == 0 else "B", k))
+        lines.append("prc[m] : 1 = " + "".join("wait q%d; " % i for i in range(n)) + "print done; close self")
+        out.append(("storm:call:%d:%d" % (n, k), nat + da + db + "\n".join(lines) + "\n"))
+    return out
+
+
+def family_i():
+    """many processes printing at the same instant (no communication orders their prints) and many processes calling
+    DIFFERENT functions of the same arity at the same instant: whatever the interpreter shares between process goroutines
+    without synchronisation - an output buffer, a cache in the global environment - shows as lost, duplicated or swapped
+    labels on a multi-core run"""
+    out = []
+    for n, k in ((6, 4), (14, 8)):
+        lines = ["prc[p%d] : 1 = %sclose self" % (i, "print tick; " * k) for i in range(n)]
+        lines.append("prc[m] : 1 = " + "".join("wait p%d; " % i for i in range(n)) + "print done; close self")
+        out.append(("I:printstorm:%d:%d" % (n, k), "\n".join(lines) + "\n"))
+    for n, k in ((4, 5), (6, 12)):
+        nat = "type nat = +{z : 1, s : nat}\nlet zero() : nat = t : 1 <- new close self; self.z<t>\nlet succ(x : nat) : nat = self.s<x>\n"
+        da = "let drainA(x : nat) : 1 = case x (z<t> => wait t; close self | s<y> => print a; drainA(y))\n"
+        db = "let drainB(x : nat) : 1 = case x (z<t> => wait t; close self | s<y> => print b; drainB(y))\n"
+        lines = []
+        for i in range(n):
+            build = "n0 <- new zero(); " + "".join("n%d <- new succ(n%d); " % (j + 1, j) for j in range(k))
+            lines.append("prc[q%d] : 1 = %sr <- new drain%s(n%d); wait r; close self" % (i, build, "A" if i % 2 == 0 else "B", k))
+        lines.append("prc[m] : 1 = " + "".join("wait q%d; " % i for i in range(n)) + "print done; close self")
+        out.append(("I:callstorm:%d:%d" % (n, k), nat + da + db + "\n".join(lines) + "\n"))
+    return out
+
+
 def programs():
     seen, out = set(), []
-    for fam in (family_a, family_b, family_b2, family_c, family_d, family_e, family_f, family_g, family_h):
+    for fam in (family_a, family_b, family_b2, family_c, family_d, family_e, family_f, family_g, family_h, family_i):
         for i, t in fam():
             if t not in seen:
                 seen.add(t)
